@@ -146,3 +146,42 @@ def with_own_hydrogens(base, perturb=0.0, at_residue_end=False):
             pending.extend(extra.get((l[21].strip() or '_', int(l[22:26]), l[26], l[12:16].strip()), []))
     out.extend(pending)
     return out
+
+
+def titrated_with_list(pdbname, sel_list):
+    """Run <pdbname> with options.titrate_only set (through the API, as the regression tests do) to the given LIST OBJECT; returns the
+    sorted (chain, number, icode) of the titrated groups of the reported conformation."""
+    import propka.lib as plib
+    import propka.input as pinp
+    from propka.parameters import Parameters
+    from propka.molecular_container import MolecularContainer
+    f = os.path.join(PDB_DIR, pdbname + '.pdb')
+    o = plib.loadOptions(['-q', f])
+    o.titrate_only = sel_list
+    m = MolecularContainer(pinp.read_parameter_file(o.parameters, Parameters()), o)
+    m = pinp.read_molecule_file(f, m)
+    m.calculate_pka()
+    return sorted({(g.atom.chain_id, g.atom.res_num, g.atom.icode) for g in m.conformations['AVR'].groups if g.titratable})
+
+
+def recycled_address_selections(pdbname, sel1, sel2, tries=20000):
+    """Two calculations in one process with different residue selections, where the second selection is a list object living at the
+    address the first one had (the first calculation and its list are dropped in between).  Returns (got1, got2, recycled?)."""
+    import gc
+    first = list(sel1)
+    got1 = titrated_with_list(pdbname, first)
+    gc.collect()
+    addr = id(first)
+    del first
+    second = []
+    hold = []
+    n = 0
+    while id(second) != addr and n < tries:
+        hold.append(second)
+        second = []
+        n += 1
+    recycled = id(second) == addr
+    del hold
+    second.extend(sel2)
+    got2 = titrated_with_list(pdbname, second)
+    return got1, got2, recycled
